@@ -70,6 +70,17 @@ func c02(e *Env) {
 			}
 			g := e.Gen(o, t.QName, ci)
 			v := g.Value(t)
+			if len(o.ForceKey) > 0 && ci%2 == 1 {
+				// every registered key also once with the body/extension left out: where the encoder fills it
+				// in, the bytes must be those of the pinned type for exactly that key
+				for _, f := range t.Fields {
+					if f.Kind == "union" {
+						fv := reflect.ValueOf(v).Elem().FieldByName(f.Name)
+						fv.Set(reflect.Zero(fv.Type()))
+						lf["forced-key-with-absent-body"]++
+					}
+				}
+			}
 			if !val.IsZero(v) {
 				local[val.Hash(v)] = struct{}{}
 			}
